@@ -41,8 +41,10 @@ META = {
                      "discretisedfield/field.py"],
     "assumptions": [
         "non-finite factors (nan/inf) are not generated (DESIGN C13, rule R7)",
-        "translations and reference points stay within 1e3 edge lengths; corners are "
-        "compared at 256 eps x steps x the largest coordinate magnitude seen in the history",
+        "translations and reference points stay within 1e3 edge lengths; the model carries a "
+        "running rounding-error bound (magnified by |factor| at every scaling) - corners are "
+        "compared at 16x that bound and a history is not continued once the bound exceeds "
+        "1e-9 of the smallest cell",
     ],
 }
 
@@ -95,33 +97,39 @@ class Model:
         self.subs = dict(subs or {})
         self.array, self.valid = array, valid
         self.comp = comp  # {axis index: component index} for mapped components
-        self.mag = float(max(np.max(np.abs(box.lo)), np.max(np.abs(box.hi))))
+        # running bound on the absolute rounding error of any corner coordinate
+        # (library and model evaluate the same affine maps in different orders)
+        self.err = 4 * EPS * self._mag()
         self.steps = 0
 
-    def _touch(self, *vals):
+    def _mag(self, *vals):
+        m = max(float(np.max(np.abs(self.box.lo))), float(np.max(np.abs(self.box.hi))))
         for v in vals:
-            self.mag = max(self.mag, float(np.max(np.abs(v))))
-        self.mag = max(self.mag, float(np.max(np.abs(self.box.lo))),
-                       float(np.max(np.abs(self.box.hi))))
-        self.steps += 1
+            m = max(m, float(np.max(np.abs(v))))
+        return m
 
     def translate(self, v):
         v = np.asarray(v, float)
+        before = self._mag(v)
         self.box = self.box.translate(v)
         self.subs = {k: b.translate(v) for k, b in self.subs.items()}
-        self._touch(v)
+        self.err += 4 * EPS * max(before, self._mag())
+        self.steps += 1
 
     def scale(self, s, R):
         R = self.box.centre if R is None else np.asarray(R, float)
         s = np.asarray(s, float)
-        self._touch(R)
+        smax = float(np.max(np.abs(s)))
+        before = self._mag(R)
         self.box = self.box.scale(s, R)
         self.subs = {k: b.scale(s, R) for k, b in self.subs.items()}
-        self._touch()
+        # old errors are magnified by |s|; x - R, the product and the sum round once each
+        self.err = self.err * max(smax, 1.0) + 8 * EPS * (before * max(smax, 1.0) + self._mag())
+        self.steps += 1
 
     def rotate(self, ia, ib, k, R):
         R = self.box.centre if R is None else np.asarray(R, float)
-        self._touch(R)
+        before = self._mag(R)
         self.box = self.box.rotate(ia, ib, k, R)
         self.subs = {key: b.rotate(ia, ib, k, R) for key, b in self.subs.items()}
         if k % 2 == 1:
@@ -141,11 +149,22 @@ class Model:
                     new[..., cb] = arr[..., ca]
                     arr = new
             self.array, self.valid = arr.copy(), val.copy()
-        self._touch()
+        self.err += 8 * EPS * max(before, self._mag())
+        self.steps += 1
 
     @property
     def tol(self):
-        return 256 * EPS * max(self.steps, 1) * self.mag
+        return 16 * self.err
+
+    @property
+    def mag(self):
+        return self.err / EPS
+
+    def cond(self):
+        """Error bound in units of the smallest cell (edge if there is no mesh)."""
+        edges = self.box.hi - self.box.lo
+        cell = edges if self.n is None else edges / self.n
+        return self.err / float(np.min(cell))
 
 
 # --------------------------------------------------------------- state comparison
@@ -365,7 +384,21 @@ def history(ctx, obj, model, dims, kinds, target=None, label="region"):
     check_quiescent(ctx, obj, -1)
     check_model(ctx, obj, model, -1)
     for step in range(nsteps):
-        kind, kw = rand_step(rng, model, dims, kinds)
+        # rule R7: a history whose accumulated rounding error (magnified by large
+        # factors about far-away points) exceeds 1e-9 cell is not generated - no
+        # float64 implementation keeps region and subregions aligned there
+        for _ in range(10):
+            kind, kw = rand_step(rng, model, dims, kinds)
+            keep = (model.array, model.valid)
+            model.array = model.valid = None
+            trial = copy.deepcopy(model)
+            model.array, model.valid = keep
+            apply_model(trial, kind, kw, dims)
+            if trial.cond() < 1e-9:
+                break
+        else:
+            ctx.event("history_ended_ill_conditioned")
+            break
         inplace = bool(rng.random() < 0.5)
         on_mesh = target is not None and target[kind] == "mesh"
         if on_mesh:
@@ -396,7 +429,7 @@ def history(ctx, obj, model, dims, kinds, target=None, label="region"):
         ctx.check("C13.inplace_returns_self", ret is recv_clone, step=step, log=log, object=label)
         apply_model(model, kind, kw, dims)
         if not on_mesh:
-            diff = same_state(state(clone), state(cp), 8 * EPS * model.mag)
+            diff = same_state(state(clone), state(cp), model.tol)
             ctx.check("C13.inplace_equals_copy", diff is None, differs_in=diff, step=step,
                       log=log, object=label, kind=kind,
                       inplace_state={k: v for k, v in state(clone).items() if k in ("pmin", "pmax", "units", "n")},
